@@ -52,10 +52,8 @@ Inductive stmt :=
 Inductive body := BCode (b : list stmt) | BForward (c : N).
 
 Record mdef := { m_name : N; m_static : bool; m_params : list N; m_body : body }.
-(* [c_base]: the class named in the class statement's base list (None: object).  The semantics below does NOT look
-   methods up in base classes: programs with a base class are outside the theorems' domain ([Refactor.side] asks for
-   c_base = None everywhere); the field exists so that EncapsulateField's refusal over INHERITED accessor names
-   ([Refactor.enc_refuses]) can be stated and compared with rope. *)
+(* [c_base]: the class named in the class statement's base list (None: object).  Methods are looked up in the class
+   and then in its base class ([find_meth], ONE level: [Refactor.side] asks that a base class has no base itself). *)
 Record cdef := { c_name : N; c_base : option N; c_methods : list mdef }.
 Record prog := { p_classes : list cdef; p_funcs : list mdef; p_main : list stmt }.
 
@@ -150,6 +148,17 @@ Fixpoint find_c (l : list cdef) (c : N) : option cdef :=
   | d :: r => if N.eqb c (c_name d) then Some d else find_c r c
   end.
 
+(* method lookup: the class itself, then its base class *)
+Definition find_meth (cs : list cdef) (cd : cdef) (m : N) : option mdef :=
+  match find_m (c_methods cd) m with
+  | Some d => Some d
+  | None =>
+      match c_base cd with
+      | Some b => match find_c cs b with Some bd => find_m (c_methods bd) m | None => None end
+      | None => None
+      end
+  end.
+
 Fixpoint bind_params (ps : list N) (vs : list value) : option env :=
   match ps, vs with
   | [], [] => Some []
@@ -200,7 +209,7 @@ Section Sem.
     | Some cd =>
         let l := length (fst s) in
         let s0 := (fst s ++ [(c, [])], snd s) in
-        match find_m (c_methods cd) init_name with
+        match find_meth (p_classes P) cd init_name with
         | None => match vs with [] => Done (VRef l, s0) | _ => Fail end
         | Some d =>
             match m_body d with
@@ -225,7 +234,7 @@ Section Sem.
         match find_c (p_classes P) c with
         | None => Fail
         | Some cd =>
-            match find_m (c_methods cd) m with
+            match find_meth (p_classes P) cd m with
             | None => Fail
             | Some d => if m_static d then Fail else run_body ex d (o :: vs) s
             end
